@@ -93,7 +93,7 @@ def deflate_bomb(raw: bool, expanded: int) -> bytes:
 
 
 @functools.lru_cache(maxsize=None)
-def vmdk_bomb(form: str, lba: int = 0) -> bytes:
+def vmdk_bomb(form: str, marker_lba: int = 0) -> bytes:
     """A stream-optimised extent with one compressed grain whose stream expands to 128 MiB; the stream is zlib-wrapped (as the
     format has it), a raw deflate stream, or gzip-wrapped (what a lenient reader might also accept)."""
     import gzip as _gzip
@@ -113,7 +113,7 @@ def vmdk_bomb(form: str, lba: int = 0) -> bytes:
             grain_sector = off // 512
             break
     pos = len(gb)
-    gb.extend(struct.pack("<QI", lba & 0xFFFFFFFFFFFFFFFF, len(zb)) + zb)  # the marker's own LBA field: any value (capacity is 200)
+    gb.extend(struct.pack("<QI", marker_lba & 0xFFFFFFFFFFFFFFFF, len(zb)) + zb)  # the marker's own LBA field: any value (capacity is 200)
     gb.extend(bytes(-len(gb) % 512))
     # point the grain table entry at the bomb
     for off in range(0, pos - 4, 4):
